@@ -59,7 +59,7 @@ register('C09', [
     'cost component lengths are case-split concretely; +/- inverse law only on integer-valued components |v| <= 2^24',
 ], [
     'goals with multi-objective layers built in goal_reader.rs; fitness extraction from real solutions',
-    'cost vectors that spill to the heap (length > 6) in quick tier',
+    'cost vectors longer than 7 components (7 = one more than the inline capacity: collect / + / - on a heap-spilled vector is decided; the order laws are decided up to 3 / 6)',
 ])
 register('C15', [
     'rayon implements its documented fold/reduce contract (result = reducer applied along some binary tree with identity leaves)',
